@@ -137,7 +137,7 @@ def _config_h(dest):
     return "fallback"
 
 
-def gen_headers(dest, hashes=None, obsolete_api=None):
+def gen_headers(dest, hashes=None, obsolete_api=None, config_overrides=None):
     """Generate crypt.h, crypt-hashes.h, crypt-symbol-vers.h, libcrypt.map in
     dest with the repository's own scripts.  hashes: list of enabled method
     names (default: all)."""
@@ -152,6 +152,15 @@ def gen_headers(dest, hashes=None, obsolete_api=None):
                    "#define ENABLE_OBSOLETE_API " + val, t)
         t = re.sub(r"#define ENABLE_OBSOLETE_API_ENOSYS \d+",
                    "#define ENABLE_OBSOLETE_API_ENOSYS 0", t)
+        with open(cfg, "w") as f:
+            f.write(t)
+    if config_overrides:
+        with open(cfg) as f:
+            t = f.read()
+        for k, v in config_overrides.items():
+            t, n = re.subn(r"#define %s \S+" % re.escape(k), "#define %s %s" % (k, v), t)
+            if not n:
+                t += "\n#define %s %s\n" % (k, v)
         with open(cfg, "w") as f:
             f.write(t)
     hs = sorted(hashes) if hashes is not None else ALL_HASHES
